@@ -98,7 +98,10 @@ var tracesAdapter = &sigAdapter{
 	bytes: func(p any) int { return (&ptrace.ProtoMarshaler{}).TracesSize(p.(ptrace.Traces)) },
 	clone: func(p any) any { d := ptrace.NewTraces(); p.(ptrace.Traces).CopyTo(d); return d },
 	empty: func() any { return ptrace.NewTraces() },
-	json:  func(p any) string { b, _ := (&ptrace.JSONMarshaler{}).MarshalTraces(p.(ptrace.Traces)); return string(b) },
+	json: func(p any) string {
+		b, _ := (&ptrace.JSONMarshaler{}).MarshalTraces(p.(ptrace.Traces))
+		return string(b)
+	},
 	newExp: func(set exporter.Settings, push func(context.Context, any) error, opts ...exporterhelper.Option) (simExporter, error) {
 		e, err := exporterhelper.NewTraces(context.Background(), set, struct{}{}, func(ctx context.Context, td ptrace.Traces) error { return push(ctx, td) }, opts...)
 		if err != nil {
@@ -130,7 +133,10 @@ var metricsAdapter = &sigAdapter{
 	bytes: func(p any) int { return (&pmetric.ProtoMarshaler{}).MetricsSize(p.(pmetric.Metrics)) },
 	clone: func(p any) any { d := pmetric.NewMetrics(); p.(pmetric.Metrics).CopyTo(d); return d },
 	empty: func() any { return pmetric.NewMetrics() },
-	json:  func(p any) string { b, _ := (&pmetric.JSONMarshaler{}).MarshalMetrics(p.(pmetric.Metrics)); return string(b) },
+	json: func(p any) string {
+		b, _ := (&pmetric.JSONMarshaler{}).MarshalMetrics(p.(pmetric.Metrics))
+		return string(b)
+	},
 	newExp: func(set exporter.Settings, push func(context.Context, any) error, opts ...exporterhelper.Option) (simExporter, error) {
 		e, err := exporterhelper.NewMetrics(context.Background(), set, struct{}{}, func(ctx context.Context, md pmetric.Metrics) error { return push(ctx, md) }, opts...)
 		if err != nil {
@@ -218,11 +224,11 @@ func init() {
 
 // backend is the simulated export destination: every call is recorded and parks until the scheduler answers.
 type backendCall struct {
-	N       int
-	Items   map[string]string
-	Bytes   int
-	Payload any // deep copy taken at call time
-	Start   int // event index at which the call began
+	N        int
+	Items    map[string]string
+	Bytes    int
+	Payload  any // deep copy taken at call time
+	Start    int // event index at which the call began
 	Answered bool
 	Outcome  error
 	CtxErr   error
